@@ -732,6 +732,15 @@ func (w *World) fullCompare(exp *Expect) {
 				}
 				hs = append(hs, w.sy.H(junkTerm(1)))
 				want = append(want, 0)
+				// every hash asked a second time (and the whole request once more): a request may
+				// name a hash more than once and may be longer than the number of tracked leaves
+				nq := len(hs)
+				for rep := 0; rep < 2; rep++ {
+					for i := nq - 1; i >= 0; i-- {
+						hs = append(hs, hs[i])
+						want = append(want, want[i])
+					}
+				}
 				g := w.mon.begin(in, "GetLeafHashPositions")
 				arg := g.H("hashes", hs)
 				got := in.M.GetLeafHashPositions(arg)
